@@ -94,6 +94,17 @@ def r1_inventory(ctx):
             ctx.ob("C14.R1", "state|" + k, True, "`%s` is allow-listed: %s" % (k, TABLE[k]), loc="%s:%s" % (it.get("file"), it.get("line")), nontrivial=False)
             continue
         ok, how = kinds.reset_on_entry(prog, rb, S[0], k, exclude={"shuttle_engine::runtime::failure::persist_failure"})
+        # a thread-local that holds a struct is reset only if every interior-mutable field of the struct is: re-initialising one field
+        # (`init` replacing the schedule) says nothing about a counter that sits next to it
+        flds = kinds.interior_fields(prog, it["ty"])
+        if ok and len(flds) > 1:
+            for fk, fty in flds:
+                okf, howf = kinds.reset_on_entry(prog, rb, S[0], k, exclude={"shuttle_engine::runtime::failure::persist_failure"}, field=fk)
+                if not okf:
+                    ok, how = False, "field `%s` (%s) is not reset: %s" % (fk.rsplit(".", 1)[-1], fty, howf)
+                    break
+            else:
+                how += "; every interior-mutable field (%s) individually" % ", ".join(f.rsplit(".", 1)[-1] for f, _ in flds)
         # cleanup alone is not enough: a failing execution unwinds out of Execution::run without reaching it, and the next
         # run on the same thread would start from the failed run's values (defect D8, fixed in /repo)
         if ok and k in cleanup_resets and cleanup_ok:
